@@ -296,6 +296,10 @@ EXC_PARENTS = {
     'OSError': 'Exception',                   # IOError is OSError
     'TimeoutError': 'OSError',                # asyncio.TimeoutError is TimeoutError (>= 3.11)
     'BlockingIOError': 'OSError',
+    'PermissionError': 'OSError',
+    'FileNotFoundError': 'OSError',
+    'FileExistsError': 'OSError',
+    'InterruptedError': 'OSError',
     'RuntimeError': 'Exception',
     'LookupError': 'Exception',
     'KeyError': 'LookupError',
